@@ -40,13 +40,100 @@ Qed.
 
 (** * Bernoulli *)
 
-Lemma bernoulli_nll_is_neg_log_pmf y p :
-  0 < p < 1 -> y = 0 \/ y = 1 ->
-  - torch_bernoulli_log_prob p y = - ln (bernoulli_pmf y p).
+(** the kernel model (stable form) is the documented loss of torch.nn.BCEWithLogitsLoss *)
+Lemma bce_doc_form x y :
+  torch_bce_with_logits x y = - (y * ln (sigmoid x) + (1 - y) * ln (1 - sigmoid x)).
 Proof.
-  intros Hp [Hy|Hy]; subst y; unfold torch_bernoulli_log_prob, bernoulli_pmf.
+  unfold torch_bce_with_logits, sigmoid.
+  pose proof (exp_pos (- x)) as He.
+  assert (H1 : 0 < 1 + exp (- x)) by lra.
+  rewrite ln_Rinv by exact H1.
+  replace (1 - / (1 + exp (- x))) with (exp (- x) * / (1 + exp (- x))) by (field; lra).
+  rewrite ln_mult; [| exact He | apply Rinv_0_lt_compat; exact H1].
+  rewrite ln_exp, ln_Rinv by exact H1. ring.
+Qed.
+
+(** ... and at the logit of a probability strictly inside ]0,1[ it is the Bernoulli cross-entropy *)
+Lemma bce_at_logit c y :
+  0 < c < 1 -> torch_bce_with_logits (ln c - ln (1 + - c)) y = - (y * ln c + (1 - y) * ln (1 - c)).
+Proof.
+  intros [H0 H1]. unfold torch_bce_with_logits.
+  replace (1 + - c) with (1 - c) by ring.
+  assert (E : exp (- (ln c - ln (1 - c))) = (1 - c) / c).
+  { replace (- (ln c - ln (1 - c))) with (ln (1 - c) + - ln c) by ring.
+    rewrite exp_plus, exp_Ropp, !exp_ln by lra. reflexivity. }
+  rewrite E. replace (1 + (1 - c) / c) with (/ c) by (field; lra).
+  rewrite ln_Rinv by lra. ring.
+Qed.
+
+Lemma clamp_prob_range lo hi p : lo <= hi -> lo <= clamp_prob lo hi p <= hi.
+Proof.
+  intros H. unfold clamp_prob. split; [apply Rmin_glb; [apply Rmax_r | exact H] | apply Rmin_r].
+Qed.
+
+Lemma clamp_prob_id lo hi p : lo <= p <= hi -> clamp_prob lo hi p = p.
+Proof. intros [H1 H2]. unfold clamp_prob. rewrite Rmax_left by lra. rewrite Rmin_left by lra. reflexivity. Qed.
+
+Lemma clamp_prob_hi lo hi p : lo <= hi -> hi <= p -> clamp_prob lo hi p = hi.
+Proof. intros H1 H2. unfold clamp_prob. rewrite Rmax_left by lra. rewrite Rmin_right by lra. reflexivity. Qed.
+
+Lemma clamp_prob_lo lo hi p : lo <= hi -> p <= lo -> clamp_prob lo hi p = lo.
+Proof. intros H1 H2. unfold clamp_prob. rewrite Rmax_right by lra. rewrite Rmin_left by lra. reflexivity. Qed.
+
+Lemma bernoulli_pmf_cases y c :
+  y = 0 \/ y = 1 -> - (y * ln c + (1 - y) * ln (1 - c)) = - ln (bernoulli_pmf y c).
+Proof.
+  intros [Hy|Hy]; subst y; unfold bernoulli_pmf.
   - destruct (Req_EM_T 0 1) as [E|_]; [lra|]. destruct (Req_EM_T 0 0) as [_|N]; [|lra]. f_equal. ring.
   - destruct (Req_EM_T 1 1) as [_|N]; [|lra]. f_equal. ring.
+Qed.
+
+(** the traced code path, for ANY probability argument: the negative log-pmf at the CLAMPED probability *)
+Lemma code_bernoulli_clamped lo hi y p :
+  0 < lo -> lo <= hi -> hi < 1 -> y = 0 \/ y = 1 ->
+  code_bernoulli_nll lo hi y p = - ln (bernoulli_pmf y (clamp_prob lo hi p)).
+Proof.
+  intros Hl Hlh Hh Hy. unfold code_bernoulli_nll. pose proof (clamp_prob_range lo hi p Hlh) as Hc.
+  rewrite bce_at_logit by lra. rewrite Ropp_involutive. apply bernoulli_pmf_cases. exact Hy.
+Qed.
+
+(** probabilities that the clamp leaves alone: the negative log-pmf itself *)
+Lemma code_bernoulli_interior lo hi y p :
+  0 < lo -> hi < 1 -> lo <= p <= hi -> y = 0 \/ y = 1 ->
+  code_bernoulli_nll lo hi y p = - ln (bernoulli_pmf y p).
+Proof.
+  intros Hl Hh Hp Hy. rewrite code_bernoulli_clamped by (try assumption; lra).
+  rewrite clamp_prob_id by exact Hp. reflexivity.
+Qed.
+
+(** finite for every probability argument, saturated or not *)
+Lemma code_bernoulli_bounds lo hi y p :
+  0 < lo -> lo <= hi -> hi < 1 -> y = 0 \/ y = 1 ->
+  0 <= code_bernoulli_nll lo hi y p <= - ln (Rmin lo (1 - hi)).
+Proof.
+  intros Hl Hlh Hh Hy. rewrite code_bernoulli_clamped by assumption.
+  pose proof (clamp_prob_range lo hi p Hlh) as [Hc1 Hc2]. set (c := clamp_prob lo hi p) in *.
+  assert (Hm : 0 < Rmin lo (1 - hi)) by (apply Rmin_glb_lt; lra).
+  assert (Hq : forall q, Rmin lo (1 - hi) <= q -> q <= 1 -> 0 <= - ln q <= - ln (Rmin lo (1 - hi))).
+  { intros q Hq1 Hq2. split.
+    - assert (ln q <= ln 1) by (apply ln_le; lra). rewrite ln_1 in *. lra.
+    - assert (ln (Rmin lo (1 - hi)) <= ln q) by (apply ln_le; lra). lra. }
+  destruct Hy as [Hy|Hy]; subst y; unfold bernoulli_pmf.
+  - destruct (Req_EM_T 0 1) as [E|_]; [lra|]. destruct (Req_EM_T 0 0) as [_|N]; [|lra].
+    apply Hq; [|lra]. pose proof (Rmin_r lo (1 - hi)). lra.
+  - destruct (Req_EM_T 1 1) as [_|N]; [|lra].
+    apply Hq; [|lra]. pose proof (Rmin_l lo (1 - hi)). lra.
+Qed.
+
+(** saturated probability with the matching outcome: -ln(1 - eps), a rounding unit — not 0 * ln 0 *)
+Lemma code_bernoulli_saturated lo hi p :
+  0 < lo -> lo <= hi -> hi < 1 ->
+  (hi <= p -> code_bernoulli_nll lo hi 1 p = - ln hi /\ code_bernoulli_nll lo hi 0 p = - ln (1 - hi)) /\
+  (p <= lo -> code_bernoulli_nll lo hi 0 p = - ln (1 - lo) /\ code_bernoulli_nll lo hi 1 p = - ln lo).
+Proof.
+  intros Hl Hlh Hh. split; intros Hp; split; rewrite code_bernoulli_clamped by (try assumption; lra || (left; reflexivity) || (right; reflexivity));
+    rewrite ?(clamp_prob_hi lo hi p Hlh Hp), ?(clamp_prob_lo lo hi p Hlh Hp); unfold bernoulli_pmf;
+    repeat match goal with |- context [Req_EM_T ?a ?b] => destruct (Req_EM_T a b); try lra end; reflexivity.
 Qed.
 
 (** * Weibull: textbook facts *)
